@@ -302,6 +302,9 @@ ossOperationsFacet::AggregateVersions(const PictID pid, ops::Result& opResult) c
 
   core.Src().UpdateSync(pid);
   const auto& opHandle = operations.at(pid);
+  if (opHandle->translations == nullptr) {
+    return std::nullopt; // the stored data was not produced by this operation: nothing to extrapolate from
+  }
   const auto versionTrans =
     opProcs.at(opHandle->type)->CreateVersionTranslation(opHandle->type, *opHandle->translations, *opResult.translation);
 
